@@ -52,10 +52,11 @@ class Tracer:
 
     active: Optional["Tracer"] = None
 
-    def __init__(self, root: SCFG, pids: Optional[PayloadIds] = None, primitives: bool = True):
+    def __init__(self, root: SCFG, pids: Optional[PayloadIds] = None, primitives: bool = True, names: bool = False):
         self.root = root
         self.pids = pids
         self.primitives = primitives
+        self.names = names
         self.events: List[Dict[str, Any]] = []
         self.last = project(root, pids)
         self.init = self.last
@@ -105,9 +106,27 @@ class Tracer:
         self._saved.append((owner, attr, orig))
         setattr(owner, attr, wrapper)
 
+    def _wrap_name(self, owner: Any, attr: str, fl: str) -> None:
+        orig = getattr(owner, attr)
+        tracer = self
+
+        def wrapper(gen: Any, kind: str) -> str:
+            name = orig(gen, kind)
+            if Tracer.active is tracer:
+                tracer.log("name", "x", "", {"fl": fl, "kind": str(kind), "name": str(name)})
+            return name
+
+        self._saved.append((owner, attr, orig))
+        setattr(owner, attr, wrapper)
+
     def __enter__(self) -> "Tracer":
         assert Tracer.active is None
         Tracer.active = self
+        if self.names:
+            from numba_scfg.core.datastructures.scfg import NameGenerator
+
+            for fl, attr in (("block", "new_block_name"), ("region", "new_region_name"), ("var", "new_var_name")):
+                self._wrap_name(NameGenerator, attr, fl)
         if not self.primitives:
             return self
 
@@ -177,6 +196,8 @@ def record_restructure(
     primitives: bool = True,
     stage_hook: Optional[Callable[[str, SCFG], Any]] = None,
     stage_states: bool = True,
+    names: bool = False,
+    reload_between: bool = False,
 ) -> Dict[str, Any]:
     """Run join_returns / restructure_loop / restructure_branch on `scfg`,
     recording every primitive event and the full state at every stage."""
@@ -205,8 +226,19 @@ def record_restructure(
         ("branches", "restructure_branch"),
     )
     lim = sys.getrecursionlimit()
-    with Tracer(scfg, pids, primitives) as t:
+    with Tracer(scfg, pids, primitives, names) as t:
         for name, fn in steps:
+            if reload_between and name != "closed":
+                # write the graph out and read it back between stages (C18 histories); the new object replaces the old
+                try:
+                    scfg2, _ = SCFG.from_dict(scfg.to_dict())
+                    scfg = scfg2
+                    t.root = scfg
+                    t.log("reload", "x", st0["root"], {"before": name})
+                except Exception as e:
+                    t.log("reload", "x", st0["root"], {"before": name}, exc=exc_sig(e))
+                    beh["exc"] = "reload:" + exc_sig(e)
+                    break
             try:
                 getattr(scfg, fn)()
             except RecursionError as e:
